@@ -204,7 +204,7 @@ func loadEngine(repo, verifDir string) (*Engine, error) {
 	e.scanMapLiterals()
 	// logic functions introduced by pure-verdict clauses
 	for k, ct := range e.specs.contracts {
-		if ct.PureVerdict == "" {
+		if ct.PureVerdict == "" && ct.PureResult == "" {
 			continue
 		}
 		fn := e.lookupFn(k)
@@ -215,8 +215,15 @@ func loadEngine(repo, verifDir string) (*Engine, error) {
 		for _, p := range fn.Params {
 			sorts = append(sorts, e.types.sortOf(p.Type()))
 		}
-		e.specs.funSigs[ct.PureVerdict] = funSig{args: sorts, ret: sortBool}
-		e.verdictDecls = append(e.verdictDecls, "(declare-fun "+ct.PureVerdict+" ("+strings.Join(sorts, " ")+") Bool)")
+		if ct.PureVerdict != "" {
+			e.specs.funSigs[ct.PureVerdict] = funSig{args: sorts, ret: sortBool}
+			e.verdictDecls = append(e.verdictDecls, "(declare-fun "+ct.PureVerdict+" ("+strings.Join(sorts, " ")+") Bool)")
+		}
+		if ct.PureResult != "" && fn.Signature.Results().Len() > 0 {
+			rs := e.types.sortOf(fn.Signature.Results().At(0).Type())
+			e.specs.funSigs[ct.PureResult] = funSig{args: sorts, ret: rs}
+			e.verdictDecls = append(e.verdictDecls, "(declare-fun "+ct.PureResult+" ("+strings.Join(sorts, " ")+") "+rs+")")
+		}
 	}
 	sort.Strings(e.verdictDecls)
 	// register the struct sorts that ghost declarations and SMT preamble lines mention by name
@@ -230,6 +237,17 @@ func loadEngine(repo, verifDir string) (*Engine, error) {
 			n, ok := types.Unalias(tv.Type).(*types.Named)
 			if !ok || n.TypeArgs() == nil || n.TypeArgs().Len() == 0 {
 				continue
+			}
+			if isTupleKey(n) {
+				closed := true
+				for i := 0; i < n.TypeArgs().Len(); i++ {
+					if _, isTP := types.Unalias(n.TypeArgs().At(i)).(*types.TypeParam); isTP {
+						closed = false
+					}
+				}
+				if closed {
+					e.types.sortOf(n) // register key tuples eagerly (ghost declarations name their sorts)
+				}
 			}
 			if _, isIface := n.Underlying().(*types.Interface); !isIface {
 				continue
